@@ -3,6 +3,7 @@ use crate::driver::{CheckCtx, Found, PropMeta, Violation};
 
 pub mod c03;
 pub mod c04;
+pub mod c10;
 pub mod c11;
 pub mod c18;
 pub mod c19;
@@ -19,6 +20,7 @@ pub fn registry() -> Vec<PropEntry> {
     vec![
         PropEntry { meta: &c03::META, check: c03::check, replay: c03::replay },
         PropEntry { meta: &c04::META, check: c04::check, replay: c04::replay },
+        PropEntry { meta: &c10::META, check: c10::check, replay: c10::replay },
         PropEntry { meta: &c11::META, check: c11::check, replay: c11::replay },
         PropEntry { meta: &c18::META, check: c18::check, replay: c18::replay },
         PropEntry { meta: &c19::META, check: c19::check, replay: c19::replay },
